@@ -168,6 +168,7 @@ def writerMsg (d : DataInfo) (w : WState) (e : Event) (x : WErr) : String :=
     let p := if e.param < 0 then 0 else e.param
     if w.inDrum then interleave diagFmtNoteRange [toString p, toString diagDrumNoteMax]
     else interleave diagFmtNoteRange [toString p, toString ((mds_SLR - mds_NOTE : Nat))]
+  | .drumNoteInLoop => diagMsgDrumNoteInLoop
   | .drumMissing => interleave diagFmtDrumMissing [toString e.param]
   | .subMissing => interleave diagFmtSubMissing [toString e.param]
   | .platformMissing => interleave diagFmtPlatformMissing [toString e.param]
